@@ -49,6 +49,14 @@ add("C16", "e_wire", "exploration",
     "Exhaustive only for the enumerated boundary space; label contents are random. Non-ASCII label octets are outside the text round-trip claim.",
     "DESIGN.md §6 C16")
 
+add("C02", "e_zone", "exploration",
+    "runtime monitoring against an executable reference model (exhaustive small scope + random zones)",
+    "Every Zone::resolve result is compared with an independent flat-map implementation of RFC 1034 §4.3.2 step 3 / RFC 4592: exhaustively for all zones with at most 3 (quick) / 4 (thorough) "
+    "populated owner/wildcard slots under three apexes, authoritative or not, against every qname of depth <=3 over {a,b,c} x 9 qtypes; and on random zones (<=40 records, 18 types, cuts, apex NS, "
+    "wildcards under ENTs and beside siblings). Variant, record multisets, owner names, TTLs (SOA-minimum clamp) and data must agree.",
+    "Trusts the harness's flat reference model. Deviation D1 (records beneath / wildcard at a delegation point), wildcard NS and multiple CNAMEs per node are not generated. Exhaustive only within the stated small scope.",
+    "DESIGN.md §6 C02")
+
 UNDER_CONSTRUCTION = "check not built yet in this revision (see DESIGN.md §6); the technique applies, this is not a claim of inapplicability"
 
 ALL = ["C%02d" % i for i in range(1, 20)]
